@@ -86,6 +86,16 @@ Scope(cc) == IF cc.kind = "arb" /\ ArityOK(OpSeq[cc.i], cc.n) THEN <<>>
 \* an operation with a wrong count is an error wherever it is actually reached
 WrongCountReached ==
   phase = "done" /\ c.kind = "place" /\ c.v \in {9, 10, 12, 13, 14, 15, 16, 17, 18} /\ ~ArityOK(OpSeq[c.i], BadCount(OpSeq[c.i])) => ~Outcome(c).ok
+\* ---- error taxonomy (beyond C03: which variant of the error enumeration)
+\* the parser's boolean verdict and the variant it reports agree
+ParseErrConsistent == phase = "done" => (ParseOK(RuleOf(c)) <=> ParseErr(RuleOf(c)) = NoErr)
+\* a wrong count written with brackets is WrongArgumentCount; a bracket-less operand given to an operator that
+\* cannot take a single operand is InvalidOperation, while the bracketed spelling of the same is a wrong count
+HeadVariants ==
+  /\ phase = "done" /\ c.kind = "benign" /\ ~ArityOK(OpSeq[c.i], c.n) => Outcome(c).v = Str(EK_WrongArgumentCount)
+  /\ phase = "done" /\ c.kind = "unary" /\ ~ArityOK(OpSeq[c.i], 1) =>
+        /\ Outcome(c).v = Str(EK_InvalidOperation)
+        /\ Eval(Rule2Of(c), DataOf(c)).v = Str(EK_WrongArgumentCount)
 ExportCases ==
   phase = "done" =>
     IF c.kind = "unary"
